@@ -28,6 +28,8 @@ struct Row {
     a: Decimal,
     spelling: String,
     desc: String,
+    /// the fee is written with a minus sign (hostile export): only 'the output is valid DSL' is demanded of its FEES clause
+    negfee: bool,
 }
 
 fn us(d: NaiveDate) -> String {
@@ -78,7 +80,7 @@ fn row_json(r: &Row) -> Value {
         "Description": r.desc,
         "Quantity": if is_trade || is_rsu { spell(r.q, if r.spelling == "comma" { "comma_q" } else { "plain" }, false) } else { String::new() },
         "Price": if is_trade { spell(r.p, &r.spelling, false) } else { String::new() },
-        "Fees & Comm": match (&r.f, is_trade) { (Some(f), true) => spell(*f, &r.spelling, false), (None, true) => "--".to_string(), _ => String::new() },
+        "Fees & Comm": match (&r.f, is_trade) { (Some(f), true) => spell(*f, &r.spelling, r.negfee), (None, true) => "--".to_string(), _ => String::new() },
         "Amount": if is_money { spell(r.a, &r.spelling, negative_amount) } else if is_trade { spell(r.q, "plain", false) } else { String::new() },
     })
 }
@@ -96,6 +98,7 @@ fn rows_of(sk: &Skeleton) -> Vec<Row> {
         // `same` = index of an earlier row whose quantity and price this row repeats (duplicate rows, cancel rows)
         let same = r.get(6).and_then(|x| x.as_u64()).map(|x| x as usize);
         let nofee = r.get(7).and_then(|x| x.as_bool()).unwrap_or(false);
+        let negfee = r.get(8).and_then(|x| x.as_bool()).unwrap_or(false);
         let (q, p) = match same {
             Some(j) if j < out.len() => {
                 let o: &Row = &out[j];
@@ -118,7 +121,7 @@ fn rows_of(sk: &Skeleton) -> Vec<Row> {
         };
         let a = vx::fresh(&format!("a{i}"));
         vx::assume(&vx::ge(a, zero));
-        out.push(Row { action, symbol, date: sk.date(day), listed, q, p, f, a, spelling, desc });
+        out.push(Row { action, symbol, date: sk.date(day), listed, q, p, f, a, spelling, desc, negfee });
     }
     // "identical" sells (same date, symbol, quantity, price) are identical in their fees too: which of two sells that differ
     // only in fees a Cancel Sell removes is not determined by the export
@@ -258,7 +261,8 @@ struct Exp {
     symbol: String,
     q: Decimal,
     p: Decimal,
-    f: Decimal,
+    /// None: not demanded (negative fee in the export)
+    f: Option<Decimal>,
 }
 
 /// what the export denotes, row for row (None: the export must be refused)
@@ -276,19 +280,19 @@ fn expected(rows: &[Row], aw: Option<&[Award]>) -> Result<(Vec<Exp>, usize, usiz
     let mut cancels: Vec<&Row> = Vec::new();
     for r in rows {
         match r.action.as_str() {
-            "Buy" => out.push(Exp { kind: "BUY", date: r.date, symbol: r.symbol.clone(), q: r.q, p: r.p, f: r.f.unwrap_or(zero) }),
-            "Sell" => out.push(Exp { kind: "SELL", date: r.date, symbol: r.symbol.clone(), q: r.q, p: r.p, f: r.f.unwrap_or(zero) }),
+            "Buy" => out.push(Exp { kind: "BUY", date: r.date, symbol: r.symbol.clone(), q: r.q, p: r.p, f: if r.negfee { None } else { Some(r.f.unwrap_or(zero)) } }),
+            "Sell" => out.push(Exp { kind: "SELL", date: r.date, symbol: r.symbol.clone(), q: r.q, p: r.p, f: if r.negfee { None } else { Some(r.f.unwrap_or(zero)) } }),
             "Cancel Sell" => cancels.push(r),
             "Stock Plan Activity" => {
                 let Some(a) = aw else { return Err(format!("missing-fmv {} {}", r.symbol, r.date)) };
                 match expected_award(a, &r.symbol, r.date) {
-                    Some((d, p)) => out.push(Exp { kind: "BUY", date: d, symbol: r.symbol.clone(), q: r.q, p, f: zero }),
+                    Some((d, p)) => out.push(Exp { kind: "BUY", date: d, symbol: r.symbol.clone(), q: r.q, p, f: Some(zero) }),
                     None => return Err(format!("missing-fmv {} {}", r.symbol, r.date)),
                 }
             }
             "Cash Dividend" | "Qualified Dividend" | "Short Term Cap Gain" | "Long Term Cap Gain" => {
                 let t = tax.remove(&(r.date, r.symbol.clone())).unwrap_or(zero);
-                out.push(Exp { kind: "DIVIDEND", date: r.date, symbol: r.symbol.clone(), q: zero, p: r.a, f: t });
+                out.push(Exp { kind: "DIVIDEND", date: r.date, symbol: r.symbol.clone(), q: zero, p: r.a, f: Some(t) });
             }
             "NRA Tax Adj" | "NRA Withholding" => {}
             "Stock Split" => skipped += 1,
@@ -343,7 +347,9 @@ fn check_against_expected(leaf: &mut Leaf, tag: &str, parsed: &[Transaction], ex
             atoms.push(vx::eq_l(&format!("{tag} line {i} quantity"), q, e.q));
         }
         atoms.push(vx::eq_l(&format!("{tag} line {i} price/total"), p, e.p));
-        atoms.push(vx::eq_l(&format!("{tag} line {i} fees/tax"), f, e.f));
+        if let Some(ef) = e.f {
+            atoms.push(vx::eq_l(&format!("{tag} line {i} fees/tax"), f, ef));
+        }
         if c2 != "USD" {
             atoms.push(vx::eq_l(&format!("{tag} line {i} fees/tax labelled {c2} although non-zero"), f, Decimal::ZERO));
         }
